@@ -466,8 +466,14 @@ def collected (txAttrs assigned : List String) (contained : Bool) (extras : List
   let d := if contained then set "parent" d else d
   extras.foldl (fun d k => set k d) d
 
-/-- the filter in `_end_model_construction` -/
-def kwargs (txAttrs : List String) (coll : List String) : List String :=
+/-- what `_end_model_construction` passes on: attributes of the rule, and `parent` unless the object
+is the root of its model (`obj is model` ⇔ not contained: a `parent` found among the root's collected
+attributes is taken out — it goes onto the object only — before the filter `k in _tx_attrs or k == "parent"`) -/
+def kwargs (txAttrs : List String) (contained : Bool) (coll : List String) : List String :=
+  coll.filter fun k => txAttrs.contains k || (k == "parent" && contained)
+
+/-- the filter of the pinned code: `parent` was passed whenever it was found -/
+def kwargsPinned (txAttrs : List String) (coll : List String) : List String :=
   coll.filter fun k => txAttrs.contains k || k == "parent"
 
 /-- `delattr` on the collecting dict (the instrumented `__delattr__` pops the name) -/
@@ -489,11 +495,11 @@ def collectedOps (txAttrs assigned : List String) (contained : Bool) (extras : L
     List String :=
   ops.foldl (fun d o => o.apply d) (collected txAttrs assigned contained extras)
 
-/-- what user code may do without changing the constructor arguments: store anything
-(but no `parent` on an object that has none), delete anything but grammar attributes and `parent` -/
+/-- what user code may do without changing the constructor arguments: store anything, delete
+anything but what the constructor is owed (grammar attributes, `parent` of a contained object) -/
 def Op.harmless (txAttrs : List String) (contained : Bool) : Op → Prop
-  | .set k => k = "parent" → contained = true
-  | .del k => k ∉ txAttrs ∧ k ≠ "parent"
+  | .set _ => True
+  | .del k => k ∉ txAttrs ∧ (k = "parent" → contained = false)
 
 end Kw
 
